@@ -162,6 +162,26 @@ def _work(job):
     return res
 
 
+def _work_slow(job):
+    """The query once more, two seeds, 40 s each (see par.discharge)."""
+    idx, smt2, _timeout_ms, _expect, _second = job
+    res = dict(idx=idx, verdict="unknown", backend=None, seconds=0.0, model=None, tried=[], reason=None)
+    for seed in (0, 1):
+        try:
+            r, dt, model, reason = _run_z3_api(smt2, 40000, seed)
+        except Exception as exc:
+            r, dt, model, reason = "error", 0.0, None, repr(exc)
+        res["tried"].append(("z3-5.1/seed%d/late" % seed, r, round(dt, 3)))
+        res["seconds"] += dt
+        res["reason"] = reason
+        if r in ("sat", "unsat"):
+            res.update(verdict=r, backend="z3-5.1", model=model)
+            break
+        if r == "error":
+            break
+    return res
+
+
 def discharge(ctx, obls, timeout_ms=10000, workers=None, second=True):
     """Returns list of result dicts aligned with obls."""
     jobs = []
